@@ -3,6 +3,10 @@ import BiotiteModel.Proofs.C09
 import BiotiteModel.Proofs.C09Band
 import BiotiteModel.Proofs.C09Aff
 import BiotiteModel.Proofs.C09Slack
+import BiotiteModel.Proofs.C09Grow
+import BiotiteModel.Proofs.C09Abut
+import BiotiteModel.Proofs.C09RegionAff
+import BiotiteModel.Proofs.C09SlackAff
 import BiotiteModel.Proofs.C08Prefix
 import BiotiteModel.Props.C08
 import BiotiteModel.Gen.C09
@@ -41,7 +45,8 @@ theorem C09_checker_sound (a b : Seq) (M : Mat) (gap : Gap) (mode : Mode) (band 
       (∀ go ge, gap = .aff go ge → NoAbut aln ∧
         (mode = .local → sc ≤ optAff .local M go ge a b) ∧
         (mode = .semi → NoAbut (complete a b aln) → sc ≤ optAff .semi M go ge a b) ∧
-        (mode = .semi → ¬ NoAbut (complete a b aln) → sc ≤ optSemi M (max go ge) a b)) := by
+        (mode = .semi → ¬ NoAbut (complete a b aln) →
+          sc ≤ optAffAbutFree M go ge a b ∧ optAffAbutFree M go ge a b ≤ optSemi M (max go ge) a b)) := by
   unfold checkResult at h
   split at h
   · rename_i aln ht
@@ -78,8 +83,8 @@ theorem C09_checker_sound (a b : Seq) (M : Mat) (gap : Gap) (mode : Mode) (band 
         unfold NoAbut at hn
         simp only [optOk, hn, if_false] at hu
         have := of_decide_eq_true hu
-        simp only [optT, C08_reported_lin] at this
-        exact this
+        rw [optAffAbutFreeT_eq] at this
+        exact ⟨this, optAffAbutFree_le_lin M go ge a b⟩
   · simp at h
 
 /-! ## Never above the optimum of the unrestricted problem (linear penalties; corollaries of `C08_upper_*`) -/
@@ -143,6 +148,38 @@ theorem C09_aff_abut_free_witness :
     checkResult [1, 2, 2] [1, 0, 1, 0, 0] (Mat.ofRows [[4, -3], [-3, 4], [-3, -3]]) (.aff (-1) (-1)) .semi
       (some (-1, 6)) none .both [(0, 2), (-1, 3), (-1, 4)] 2 = true := by
   refine ⟨by decide, by decide, by decide, by decide⟩
+
+/-- The abutting-allowed affine semi-global optimum (three-state recursion with the free-border transitions, as
+`align_banded`'s table has them) lies between C08's optimum over non-abutting alignments (= `align_optimal`) and
+the linear semi-global optimum for the milder penalty; the executable table value is the recursion. -/
+theorem C09_optAffAbutFree_sandwich (M : Mat) (go ge : Int) (a b : Seq) :
+    optAff .semi M go ge a b ≤ optAffAbutFree M go ge a b ∧
+    optAffAbutFree M go ge a b ≤ optSemi M (max go ge) a b ∧
+    optAffAbutFreeT M go ge a b = optAffAbutFree M go ge a b :=
+  ⟨optAff_semi_le_abut M go ge a b, optAffAbutFree_le_lin M go ge a b, optAffAbutFreeT_eq M go ge a b⟩
+
+set_option maxRecDepth 20000 in
+/-- the two optima differ exactly when an optimal alignment abuts a free terminal gap: the adjudicated witnesses
+(1 vs 3, 0 vs 2); they coincide e.g. when both sequences have length 1 or a gap is never worthwhile. -/
+theorem C09_optAffAbutFree_witness :
+    optAff .semi (Mat.ofRows [[4, -3], [-3, 4], [-3, -3]]) (-1) (-1) [1, 2] [1, 0] = 1 ∧
+    optAffAbutFree (Mat.ofRows [[4, -3], [-3, 4], [-3, -3]]) (-1) (-1) [1, 2] [1, 0] = 3 ∧
+    optAff .semi (Mat.ofRows [[4, -3], [-3, 4], [-3, -3]]) (-1) (-1) [1, 2, 2] [1, 0, 1, 0, 0] = 0 ∧
+    optAffAbutFree (Mat.ofRows [[4, -3], [-3, 4], [-3, -3]]) (-1) (-1) [1, 2, 2] [1, 0, 1, 0, 0] = 2 ∧
+    optAff .semi (Mat.ofRows [[1, -1], [-1, 1]]) (-3) (-1) [0, 1, 0] [0, 1, 0] = 3 ∧
+    optAffAbutFree (Mat.ofRows [[1, -1], [-1, 1]]) (-3) (-1) [0, 1, 0] [0, 1, 0] = 3 := by
+  refine ⟨by decide, by decide, by decide, by decide, by decide, by decide⟩
+
+set_option maxRecDepth 20000 in
+/-- full band, affine (witnesses; the general statement is tied by the `abf` correspondence and the oracle): the
+`none` = −∞ model of `align_banded`'s affine table with a band covering all diagonals gives `optAffAbutFree`
+(up to the pair-free alignment, score 0), and that is above `optAff .semi` on the adjudicated witness. -/
+theorem C09_band_full_aff_witness :
+    max 0 (bandedAffScoreSetupO false (-1) (-1) ⟨[1, 2, 2], [1, 0, 1, 0, 0], Mat.ofRows [[4, -3], [-3, 4], [-3, -3]], -2, 4, false⟩)
+      = optAffAbutFree (Mat.ofRows [[4, -3], [-3, 4], [-3, -3]]) (-1) (-1) [1, 2, 2] [1, 0, 1, 0, 0] ∧
+    max 0 (bandedAffScoreSetupO false (-3) (-1) ⟨[0, 1, 0], [0, 1, 1, 0], Mat.ofRows [[1, -1], [-1, 1]], -2, 3, false⟩)
+      = optAffAbutFree (Mat.ofRows [[1, -1], [-1, 1]]) (-3) (-1) [0, 1, 0] [0, 1, 1, 0] := by
+  refine ⟨by decide, by decide⟩
 
 /-! ## The band: never above the semi-global optimum for ANY band, equal to it for a band covering all diagonals -/
 
@@ -254,6 +291,85 @@ theorem C09_xdrop_gapped_slack (M : Mat) (g thr : Int) (io : Nat) (hio : 1 ≤ i
     NoBind M g thr io x y (gapRun c (x.length + y.length)) :=
   noBind_of_bound M g x y thr io hio c hM h1 h2 hthr
 
+/-- Affine penalties (three region tables, `0` = invalid in each): under `NoBindA` (every finite state of every
+cell of the anchored three-state table `Wv` = C08's global affine table of the prefixes, `C08_table_aff_prefix`,
+is within `thr` of an upper bound `Vmax`; `gap_open, gap_ext < 0` as `align_local_gapped` requires) nothing is
+pruned and the result is the maximum over all cells of the MATCH-state value (the best extension ending in a pair,
+or 0 for the empty extension; a trailing gap can only lower the score). -/
+theorem C09_xdrop_gapped_aff (so : Bool) (M : Mat) (go ge thr : Int) (io : Nat) (x y : Seq) (Vmax : Int)
+    (h : NoBindA M go ge thr io x y Vmax) (initSize growF : Nat) :
+    ∃ R, regionAff so M go ge thr x y none initSize io growF = .ok R ∧
+      (∀ i j w, i ≤ x.length → j ≤ y.length → (Wv M go ge x y i j).m = some w → w ≤ R) ∧
+      (∃ i j w, i ≤ x.length ∧ j ≤ y.length ∧ (Wv M go ge x y i j).m = some w ∧ R = w) := by
+  refine ⟨MBk M go ge thr io x y (x.length + y.length) - (thr + io), ?_, ?_, ?_⟩
+  · cases so with
+    | true => exact regionAff_nobind M go ge thr io x y h initSize growF
+    | false => rw [← regionAff_so]; exact regionAff_nobind M go ge thr io x y h initSize growF
+  · intro i j w hi hj hw
+    have := MBk_ge_cell M go ge thr io x y i j hi hj w hw
+    omega
+  · obtain ⟨i, j, w, hi, hj, hw, he⟩ := MBk_attained M go ge thr io x y (x.length + y.length) (Nat.le_refl _)
+    exact ⟨i, j, w, hi, hj, hw, by omega⟩
+
+/-- explicit slack for the affine region: `|M|, |gap_open|, |gap_ext| ≤ c`, both penalties negative and
+`threshold ≥ 2·(n+m)·c` ⇒ the drop-off cannot bind. -/
+theorem C09_xdrop_gapped_aff_slack (M : Mat) (go ge thr : Int) (io : Nat) (hio : 1 ≤ io) (x y : Seq) (c : Int)
+    (hM : ∀ p q, -c ≤ M p q ∧ M p q ≤ c) (ho1 : -c ≤ go) (ho2 : go < 0) (he1 : -c ≤ ge) (he2 : ge < 0)
+    (hthr : 2 * ((x.length + y.length : Nat) : Int) * c ≤ thr) :
+    NoBindA M go ge thr io x y (gapRun c (x.length + y.length)) :=
+  noBindA_of_bound M go ge x y thr io hio c hM ho1 ho2 he1 he2 hthr
+
+/-! ## Table growth and `max_table_size` -/
+
+/-- `_extend_table` (new zero table, old data copied to the top-left corner) changes no cell value: a cell outside
+the old table reads 0 (= invalid / never written) before and after. -/
+theorem C09_extend_table_preserves (t : List (List Int)) (dim0 : Bool) (cols growF i j : Nat) :
+    tget (extendTable t dim0 cols growF) i j = tget t i j :=
+  tget_extendTable t dim0 cols growF i j
+
+/-- The region values are a function of the sequences, matrix, penalty and threshold only: with a
+`max_table_size` the model either raises `MemoryError` (as soon as a doubling would exceed the limit; the error is
+sticky, no score is returned) or returns exactly what the unlimited run returns — linear and affine, both code paths. -/
+theorem C09_table_limit_region (so : Bool) (M : Mat) (gap : Gap) (thr : Int) (x y : Seq) (lim : Int)
+    (initSize initOff growF : Nat) :
+    regionAlign so M gap thr x y (some lim) initSize initOff growF = .error (.other "MemoryError") ∨
+      regionAlign so M gap thr x y (some lim) initSize initOff growF
+        = regionAlign so M gap thr x y none initSize initOff growF :=
+  regionAlign_limit so M gap thr x y lim initSize initOff growF
+
+/-- the same for the whole call (`max_table_size > 0`; non-positive values are rejected with ValueError) -/
+theorem C09_table_limit (so : Bool) (a b : Seq) (M : Mat) (gap : Gap) (seed : Int × Int) (thr : Int) (dir : XDir)
+    (maxNumber : Int) (lim : Int) (hl : 0 < lim) (initSize initOff growF : Nat) :
+    gappedScore so a b M gap seed thr dir maxNumber (some lim) initSize initOff growF = .error (.other "MemoryError") ∨
+      gappedScore so a b M gap seed thr dir maxNumber (some lim) initSize initOff growF
+        = gappedScore so a b M gap seed thr dir maxNumber none initSize initOff growF := by
+  have hl' : ¬ (lim ≤ 0) := by omega
+  have comb : ∀ (uL uN dL dN : Except Err Int) (c : Int),
+      (uL = .error (.other "MemoryError") ∨ uL = uN) → (dL = .error (.other "MemoryError") ∨ dL = dN) →
+      combineRegions uL dL c = .error (.other "MemoryError") ∨ combineRegions uL dL c = combineRegions uN dN c := by
+    intro uL uN dL dN c hu hd
+    rcases hu with hu | hu
+    · left; rw [hu]; rfl
+    · subst hu
+      cases uL with
+      | error e => right; rfl
+      | ok u =>
+        rcases hd with hd | hd
+        · left; rw [hd]; rfl
+        · subst hd; right; rfl
+  unfold gappedScore
+  simp only [hl', decide_false, Bool.false_eq_true, if_false]
+  repeat' split
+  all_goals first
+    | (right; rfl)
+    | (apply comb
+       · first
+         | exact regionAlign_limit ..
+         | (right; rfl)
+       · first
+         | exact regionAlign_limit ..
+         | (right; rfl))
+
 /-! ## `score_only=True` returns the score of the full call (on the model: `_max` path = `get_trace_*` path) -/
 
 theorem C09_score_only_eq (a b : Seq) (M : Mat) (gap : Gap) (seed : Int × Int) (thr : Int) (dir : XDir)
@@ -324,6 +440,22 @@ example : regionLin false (Mat.ofRows [[1, -1], [-1, 1]]) (-2) 3 [0] [0] none 10
 example : NoBind (fun _ _ => 1) (-1) 8 1 [0, 1] [0, 1] (gapRun 1 4) :=
   C09_xdrop_gapped_slack _ _ _ 1 (by decide) _ _ 1 (fun _ _ => ⟨by decide, by decide⟩) (by decide) (by decide) (by decide)
 example : regionLin false (fun _ _ => 1) (-1) 8 [0, 1] [0, 1] none 100 1 2 = .ok 2 := by decide
+-- the hypothesis of `C09_xdrop_gapped_aff` is satisfiable, and the model then returns the best match-state value
+example : NoBindA (fun _ _ => 1) (-2) (-1) 10 1 [0] [0] 1 := by
+  refine ⟨by decide, by decide, by decide, ?_⟩
+  intro i j hi hj w hw
+  have hi' : i = 0 ∨ i = 1 := by simp at hi; omega
+  have hj' : j = 0 ∨ j = 1 := by simp at hj; omega
+  have e00 : Wv (fun _ _ => 1) (-2) (-1) [0] [0] 0 0 = ⟨some 0, none, none⟩ := by decide
+  have e01 : Wv (fun _ _ => 1) (-2) (-1) [0] [0] 0 1 = ⟨none, some (-2), none⟩ := by decide
+  have e10 : Wv (fun _ _ => 1) (-2) (-1) [0] [0] 1 0 = ⟨none, none, some (-2)⟩ := by decide
+  have e11 : Wv (fun _ _ => 1) (-2) (-1) [0] [0] 1 1 = ⟨some 1, none, none⟩ := by decide
+  rcases hi' with rfl | rfl <;> rcases hj' with rfl | rfl
+  · rw [e00] at hw; simp at hw; omega
+  · rw [e01] at hw; simp at hw; omega
+  · rw [e10] at hw; simp at hw; omega
+  · rw [e11] at hw; simp at hw; omega
+example : regionAff false (fun _ _ => 1) (-2) (-1) 10 [0] [0] none 100 1 2 = .ok 1 := by decide
 example : traceLin 3 3 1 = (3, 3) ∧ traceLin 0 2 2 = (6, 2) := by decide
 
 end BiotiteModel.C09
